@@ -259,6 +259,8 @@ def check(run):
     r1(run, tu)
     r2(run, tu)
     g1(run, run.tier == 'thorough')
+    from . import c08
+    c08.n6(run, tu, prefix='R3')     # the key a struct/union/enum is looked up with (shared with C08)
     run.min_instances('W1', 15)
     run.min_instances('R1/decision-for-abstract-outcome', 6)
     run.min_instances('R2', 4)
